@@ -386,6 +386,13 @@ def run_tables(ctx, drv, nseq):
                     ctx.oracle_fail(f"tables:raises:{type(e).__name__}", case, "merge", repr(e))
                     break
                 got_f = [(int(i), [int(x) for x in r]) for i, r in zip(got.index.tolist(), got.values.tolist())]
+                # accounting of the table store's cache (usage = DataFrame memory, not file size)
+                fc = ts.cache
+                ent = sum(int(info[1]) for info in fc.file_futures.values())
+                if int(fc.current_memory_usage) != ent or fc.current_memory_usage < 0 or fc.current_memory_usage > fc.max_memory:
+                    ctx.oracle_fail("tables:accounting", case, f"0 <= mem == sum(entries)={ent} <= {fc.max_memory}",
+                                    f"mem={fc.current_memory_usage}")
+                    break
                 # oracle: existing rows win, then first new row per index, sorted
                 d = dict(model)
                 for i, r in zip(idx, rows):
@@ -407,6 +414,20 @@ def run_tables(ctx, drv, nseq):
                     ts.cache.executor.shutdown(wait=True)
                     ts = TableStorage(root)
                     ctx.bump("tables:reopen")
+                    # a table loaded from disk (not written through this object) and then unloaded
+                    ts.get("t/x")
+                    fc = ts.cache
+                    ent = sum(int(info[1]) for info in fc.file_futures.values())
+                    if int(fc.current_memory_usage) != ent:
+                        ctx.oracle_fail("tables:accounting", dict(case, after="reopen+get"),
+                                        f"mem == sum(entries)={ent}", f"mem={fc.current_memory_usage}")
+                        break
+                    if ctx.rng.random() < 0.5:
+                        fc.unload_file("t/x")
+                        if fc.current_memory_usage != 0 or fc.file_futures:
+                            ctx.oracle_fail("tables:accounting", dict(case, after="reopen+get+unload"),
+                                            "mem == 0 and no entries", f"mem={fc.current_memory_usage} entries={list(fc.file_futures)}")
+                            break
             miss = ts.get("never/set")
             if canon(miss) != "U":
                 ctx.oracle_fail("tables:missing-key", dict(kind="table-missing"), "U", repr(miss))
